@@ -176,10 +176,13 @@ func newEconomics(c ecoCfg, notifier process.EpochNotifier) (process.FeeHandler,
 	})
 }
 
+var poolsOnce sync.Once
+var pools *testscommon.PoolsHolderMock
+
 func newProcessor(c ecoCfg, adb state.AccountsAdapter, ed process.FeeHandler, feeAcc process.TransactionFeeHandler,
 	notifier process.EpochNotifier, marsh marshal.Marshalizer, hasher hashing.Hasher) (txProcessor, error) {
 	coord := mock.NewOneShardCoordinatorMock()
-	pools := testscommon.NewPoolsHolderMock()
+	poolsOnce.Do(func() { pools = testscommon.NewPoolsHolderMock() }) // only its (unused) compiled-contracts cache is consulted
 	// real blockchain hook: IsPayable reads the code metadata of the receiver from the accounts DB
 	hook, err := hooks.NewBlockChainHookImpl(hooks.ArgBlockChainHook{
 		Accounts: adb, PubkeyConv: mock.NewPubkeyConverterMock(32), StorageService: &mock.ChainStorerMock{},
